@@ -1009,18 +1009,23 @@ class ListBox(Widget, WidgetContainerMixin):
         self.set_focus_pending = None
 
         # new position
-        _new_focus_widget, position = self._body.get_focus()
-        if focus_pos == position:
-            # do nothing
+        new_focus_widget, position = self._body.get_focus()
+        if focus_pos == position or new_focus_widget is None:
+            # do nothing (nothing to place either when the list has been emptied since set_focus() was called)
             return None
 
         # restore old focus temporarily
-        self._body.set_focus(focus_pos)
-
-        middle, top, bottom = self.calculate_visible((maxcol, maxrow), focus)
-        focus_offset, _focus_widget, focus_pos, focus_rows, _cursor = middle  # pylint: disable=unpacking-non-sequence
-        _trim_top, fill_above = top  # pylint: disable=unpacking-non-sequence
-        _trim_bottom, fill_below = bottom  # pylint: disable=unpacking-non-sequence
+        try:
+            self._body.set_focus(focus_pos)
+        except (IndexError, KeyError):
+            # the old focus position was removed after set_focus() was called: nothing to scroll from
+            focus_offset = focus_rows = 0
+            fill_above = fill_below = ()
+        else:
+            middle, top, bottom = self.calculate_visible((maxcol, maxrow), focus)
+            focus_offset, _focus_widget, focus_pos, focus_rows, _cursor = middle  # pylint: disable=unpacking-non-sequence
+            _trim_top, fill_above = top  # pylint: disable=unpacking-non-sequence
+            _trim_bottom, fill_below = bottom  # pylint: disable=unpacking-non-sequence
 
         offset = focus_offset
         for _widget, pos, rows in fill_above:
